@@ -49,7 +49,11 @@ def _case(draw):
         f = draw(L.reaction_file(nmax=10))
         f["lines"] = [ln for ln in f["lines"]]
         # edit the network through the API between reading and writing
-        f["edit"] = draw(st.sampled_from(["none", "none", "remove+reindex", "reindex", "change-coefficients"]))
+        f["edit"] = draw(st.sampled_from(["none", "none", "remove+reindex", "reindex", "change-coefficients", "add-wide-api-reaction"]))
+        if f["edit"] == "add-wide-api-reaction":
+            # "built through the API": the constructor takes any number of reactants and products; the native line has 3 + 5 columns
+            f["wide"] = draw(st.sampled_from([[["H", "H", "H", "H"], ["H2", "H2"]], [["C2H6", "He+"], ["C", "C", "H2", "H2", "H2", "He+"]],
+                                              [["H2", "H2"], ["H", "H", "H", "H", "e-", "H+"]], [["H", "H", "H"], ["H2", "H"]]]))
         return {"kind": "roundtrip", "file": f}
     api = draw(st.integers(0, 3)) == 0
     c = draw(c05._case(nmax=10, fmt="naunet" if api else None))
@@ -116,6 +120,15 @@ def roundtrip(case, failures, labels):
             net0.remove_reaction(0)
         if edit in ("remove+reindex", "reindex"):
             net0.reindex()
+        if edit == "add-wide-api-reaction":
+            from naunet.reactions.reaction import Reaction
+            from naunet.reactiontype import ReactionType
+
+            if f.get("elements"):
+                return True  # (custom symbol lists: the fixed species names of the added reaction may not parse)
+            net0.add_reaction(Reaction(list(f["wide"][0]), list(f["wide"][1]), 10.0, 300.0, 1.0e-10, 0.0, 0.0, ReactionType.GAS_TWOBODY, 7777))
+            wide = len(f["wide"][0]) > 3 or len(f["wide"][1]) > 5
+            labels.append("reaction-wider-than-the-native-line" if wide else "api-reaction-added")
         if edit == "change-coefficients":
             for k, r in enumerate(net0.reaction_list):
                 r.alpha = 1.5e-10 * (k + 1)
@@ -132,6 +145,9 @@ def roundtrip(case, failures, labels):
             tb = traceback.extract_tb(e.__traceback__)
             where = next((f"{fr.filename.split('/')[-1]}:{fr.name}" for fr in reversed(tb) if "/naunet/" in fr.filename), "?")
             key = f"roundtrip/raises/{type(e).__name__}@{where}"
+            if edit == "add-wide-api-reaction" and (len(f["wide"][0]) > 3 or len(f["wide"][1]) > 5) and isinstance(e, ValueError) and "native" in str(e):
+                labels.append("refused-at-write-time")  # the line cannot hold the reaction: refused with an error, not altered
+                return True
             if fmt == "leeds" and "unrecognizable" in str(e) and any(s.is_surface for r in net0.reaction_list for s in r.reactants + r.products):
                 key = "roundtrip/raises/non-default-surface-prefix"  # the native reader parses species with the default '#'
             failures.append((key, f"{fmt}: first write/read cycle: {type(e).__name__}: {e}"))
